@@ -15,3 +15,4 @@ import SamVerif.Props.C13
 import SamVerif.Props.C11
 import SamVerif.Props.C08
 import SamVerif.Props.C20
+import SamVerif.Props.C16
